@@ -34,10 +34,30 @@ Proof.
   rewrite (H x (or_introl eq_refl)). apply IH. intros e He. apply H. right. exact He.
 Qed.
 
+Lemma sum_of_snoc w l e : sum_of w (l ++ [e]) = (sum_of w l + w e)%nat.
+Proof. induction l as [|x l IH]; cbn [sum_of app]; [lia | rewrite IH; lia]. Qed.
+Lemma sum_of_count (w : event -> nat) (f : event -> bool) (l : list event) : (forall e, In e l -> w e = (if f e then 1 else 0)%nat) -> sum_of w l = count_if f l.
+Proof.
+  induction l as [|x l IH]; cbn [sum_of count_if]; intros H; [reflexivity|].
+  rewrite (H x (or_introl eq_refl)), IH; [reflexivity|]. intros e He. apply H. right. exact He.
+Qed.
+Lemma occ_nodup k ks : NoDup ks -> occ k ks = (if mem k ks then 1 else 0)%nat.
+Proof.
+  induction 1 as [|x l Hx Hn IH]; [reflexivity|].
+  cbn [occ]. change (mem k (x :: l)) with ((k =? x) || mem k l). rewrite IH, (N.eqb_sym k x).
+  destruct (x =? k) eqn:E; [|reflexivity]. apply N.eqb_eq in E. subst.
+  destruct (mem k l) eqn:Em; [apply mem_In in Em; contradiction | reflexivity].
+Qed.
+
 Lemma lock_keys_agree ms : lock_keys_of ms = lock_keys ms.
 Proof. reflexivity. Qed.
 
 (* ---- global invariant ---- *)
+Definition pw_sent (l : list event) (r T : N) (ks : list N) : Prop :=
+  exists p a o m f secs, In (EPwSend r T p ks a o m f secs) l.
+Lemma pw_sent_cons l e r T ks : pw_sent l r T ks -> pw_sent (e :: l) r T ks.
+Proof. intros (p & a & o & m & f & secs & H). exists p, a, o, m, f, secs. right. exact H. Qed.
+#[export] Hint Resolve pw_sent_cons : core.
 Record HG (pre : list event) (v : view) : Prop := {
   g_sent : forall e, In e (v_sent v) -> In e pre;
   g_dlv : forall r T C ks x, In (ECmReply r T C ks x) (v_dlv v) -> In (ECmSend r T C ks) (v_sent v);
@@ -47,7 +67,9 @@ Record HG (pre : list event) (v : view) : Prop := {
   g_seen : forall r T ttl, In (r, T, ttl) (v_seen v) -> In (ELockSeen r T ttl) pre;
   g_gc : forall r sp, In (r, sp) (v_gc v) -> In (EGcBegin r sp) pre;
   g_tso : forall t, In (ETso t) pre -> t <= v_tso v;
-  g_tso2 : v_tso v = 0 \/ In (ETso (v_tso v)) pre }.
+  g_tso2 : v_tso v = 0 \/ In (ETso (v_tso v)) pre;
+  g_pwdlv : forall r T ks x, In (EPwReply r T ks x) (v_dlv v) -> pw_sent (v_sent v) r T ks;
+  g_pwrep : forall r T ks x, In (EPwReply r T ks x) pre -> In (EPwReply r T ks x) (v_dlv v) }.
 
 Lemma HG_init : HG [] (view_of init).
 Proof. constructor; cbn; intros; try contradiction; auto. Qed.
@@ -59,7 +81,7 @@ Ltac ev_inv := repeat match goal with
   | H : @eq (N * N) _ _ |- _ => inversion H; subst; clear H
   end.
 Ltac gtac G :=
-  destruct G as [G1 G2 G3 G4 G5 G6 G7 G8 G9];
+  destruct G as [G1 G2 G3 G4 G5 G6 G7 G8 G9 G10 G11];
   constructor; vproj; intros;
   repeat match goal with
          | H : In _ (_ ++ [_]) |- _ => apply in_snoc in H
@@ -78,12 +100,12 @@ Proof.
     + right. apply in_snoc. right. reflexivity.
   - subst. gtac G.
   - subst. gtac G.
-  - destruct St as (_ & _ & _ & ->). gtac G.
+  - destruct St as (_ & _ & _ & _ & ->). gtac G.
   - subst. gtac G.
-  - subst. gtac G.
-  - subst. gtac G.
+  - destruct St as [Hs (c' & _ & ->)]. fold (pw_sent (v_sent v) r s ks) in Hs. gtac G.
+  - destruct St as [Hd ->]. gtac G.
   - destruct St as [_ St]. destruct (fb (vgetc v s) FHasm).
-    + destruct St as (_ & _ & _ & _ & St). destruct (mem (cn (vgetc v s) FPrim) ks).
+    + destruct St as (_ & _ & _ & _ & _ & St). destruct (mem (cn (vgetc v s) FPrim) ks).
       * subst. gtac G.
       * destruct St as [_ ->]. gtac G.
     + subst. gtac G.
@@ -99,9 +121,9 @@ Proof.
   - subst. gtac G.
   - subst. gtac G.
   - destruct St as [_ ->]. gtac G.
+  - destruct St as (c' & _ & [-> | ->]); gtac G.
   - subst. gtac G.
-  - subst. gtac G.
-  - subst. gtac G.
+  - destruct St as [_ ->]. gtac G.
   - subst. gtac G.
   - subst. gtac G.
   - destruct St as [_ ->]. gtac G.
